@@ -345,6 +345,42 @@ fn concurrent_drop_scenario(round: u64, out: &mut LOut) {
     drop(slow);
 }
 
+/// Two threads, no timing assumption: thread B drops twenty thousand handles of a prefix nobody writes to (each drop takes
+/// the registry's write lock for a moment) while thread A performs writes that a kept subscription on "" must see —
+/// every single one, however the two interleave.
+fn concurrent_registry_stress(writes: usize, out: &mut LOut) {
+    use std::sync::atomic::{AtomicUsize, Ordering};
+    let mut node = mk_node(simple_id("n", 9401), &NodeOpts::default());
+    let seen = Arc::new(AtomicUsize::new(0));
+    let sc = seen.clone();
+    let _kept = node.cc.subscribe_event("", move |_ev: KeyChangeEvent| {
+        sc.fetch_add(1, Ordering::Relaxed);
+    });
+    let mut handles: Vec<chitchat::ListenerHandle> = (0..20_000).map(|_| node.cc.subscribe_event("zz-unrelated", |_ev: KeyChangeEvent| {})).collect();
+    std::thread::scope(|sc| {
+        let cc = &mut node.cc;
+        let a = sc.spawn(move || {
+            for i in 0..writes {
+                cc.self_node_state().set(format!("k{i}"), "v");
+            }
+        });
+        sc.spawn(move || {
+            while let Some(h) = handles.pop() {
+                drop(h);
+                if a.is_finished() {
+                    break;
+                }
+            }
+        });
+    });
+    let got = seen.load(Ordering::Relaxed);
+    out.c.inc("concurrent_registry_stress_runs");
+    out.c.add("writes_during_registry_churn", writes as u64);
+    if got != writes {
+        out.findings.push(Finding::new(&["C15"], "listener.calls_lost_under_contention", format!("{writes} effective local writes were made while another thread dropped handles of an unrelated prefix; the kept subscription on \"\" was called {got} times")));
+    }
+}
+
 pub fn check(args: &Args) -> Outcome {
     let mut ev = Evidence::new(args, "exploration");
     let deadline = Deadline::new(args.tier.pick(200, 3000));
@@ -386,6 +422,11 @@ pub fn check(args: &Args) -> Outcome {
         let mut out = LOut { findings: vec![], c: Counters::default() };
         for r in 0..if miri { 1 } else { args.tier.pick(6u64, 40u64) } {
             concurrent_drop_scenario(r, &mut out);
+        }
+        if !miri {
+            for _ in 0..args.tier.pick(3, 12) {
+                concurrent_registry_stress(60_000, &mut out);
+            }
         }
         ev.counters.merge(&out.c);
         if out.c.get("concurrent_drop_scenarios_inconclusive") > 0 {
